@@ -187,13 +187,71 @@ void DOMAttrNSImpl::release()
 }
 
 
+//  Splits a qualified name and checks it against the namespace URI. Throws
+//  NAMESPACE_ERR if the combination is not acceptable, otherwise hands back
+//  the (pooled) strings a DOMAttrNSImpl of that name has to carry.
+static void resolveName(DOMDocumentImpl* ownerDoc,
+                        const XMLCh*  namespaceURI, const XMLCh*  qualifiedName,
+                        const XMLCh*& name,         const XMLCh*& prefix,
+                        const XMLCh*& localName,    const XMLCh*& URI)
+{
+    const XMLCh * xmlns = DOMNodeImpl::getXmlnsString();
+    const XMLCh * xmlnsURI = DOMNodeImpl::getXmlnsURIString();
+    name = ownerDoc->getPooledString(qualifiedName);
+
+    int index = DOMDocumentImpl::indexofQualifiedName(qualifiedName);
+    if (index < 0)
+        throw DOMException(DOMException::NAMESPACE_ERR, 0, ownerDoc->getMemoryManager());
+
+    bool xmlnsAlone = false;	//true if attribute name is "xmlns"
+    if (index == 0)
+    {	//qualifiedName contains no ':'
+        if (XMLString::equals(name, xmlns)) {
+            if (!XMLString::equals(namespaceURI, xmlnsURI))
+                throw DOMException(DOMException::NAMESPACE_ERR, 0, ownerDoc->getMemoryManager());
+            xmlnsAlone = true;
+        }
+        prefix = 0;
+        localName = name;
+    }
+    else
+    {
+        prefix = ownerDoc->getPooledNString(name, index);
+        localName = ownerDoc->getPooledString(name+index+1);
+
+        // Before we carry on, we should check if the prefix or localName are valid XMLName
+        if (!ownerDoc->isXMLName(prefix) || !ownerDoc->isXMLName(localName))
+            throw DOMException(DOMException::NAMESPACE_ERR, 0, ownerDoc->getMemoryManager());
+    }
+
+    // DOM Level 3: namespace URI is never empty string.
+    URI = xmlnsAlone ? xmlnsURI
+        : DOMNodeImpl::mapPrefix
+          (
+              prefix,
+              (!namespaceURI || !*namespaceURI) ? 0 : namespaceURI,
+              DOMNode::ATTRIBUTE_NODE
+          );
+    if (URI != 0)
+        URI = ownerDoc->getPooledString(URI);
+}
+
 DOMNode* DOMAttrNSImpl::rename(const XMLCh* namespaceURI, const XMLCh* name)
 {
+    // Find out whether the new name is acceptable before the attribute is
+    // taken off its element: a rejected rename must not change anything
+    const XMLCh *newName, *newPrefix, *newLocalName, *newURI;
+    resolveName((DOMDocumentImpl *)fParent.fOwnerDocument, namespaceURI, name,
+                newName, newPrefix, newLocalName, newURI);
+
     DOMElement* el = getOwnerElement();
     if (el)
         el->removeAttributeNode(this);
 
-    setName(namespaceURI, name);
+    fName = newName;
+    fPrefix = newPrefix;
+    fLocalName = newLocalName;
+    fNamespaceURI = newURI;
 
     if (el)
         el->setAttributeNodeNS(this);
@@ -203,45 +261,14 @@ DOMNode* DOMAttrNSImpl::rename(const XMLCh* namespaceURI, const XMLCh* name)
 
 void DOMAttrNSImpl::setName(const XMLCh* namespaceURI, const XMLCh* qualifiedName)
 {
-    DOMDocumentImpl* ownerDoc = (DOMDocumentImpl *)fParent.fOwnerDocument;
-    const XMLCh * xmlns = DOMNodeImpl::getXmlnsString();
-    const XMLCh * xmlnsURI = DOMNodeImpl::getXmlnsURIString();
-    this->fName = ownerDoc->getPooledString(qualifiedName);
+    const XMLCh *name, *prefix, *localName, *URI;
+    resolveName((DOMDocumentImpl *)fParent.fOwnerDocument, namespaceURI, qualifiedName,
+                name, prefix, localName, URI);
 
-    int index = DOMDocumentImpl::indexofQualifiedName(qualifiedName);
-    if (index < 0)
-        throw DOMException(DOMException::NAMESPACE_ERR, 0, GetDOMNodeMemoryManager);
-
-    bool xmlnsAlone = false;	//true if attribute name is "xmlns"
-    if (index == 0)
-    {	//qualifiedName contains no ':'
-        if (XMLString::equals(this->fName, xmlns)) {
-            if (!XMLString::equals(namespaceURI, xmlnsURI))
-                throw DOMException(DOMException::NAMESPACE_ERR, 0, GetDOMNodeMemoryManager);
-            xmlnsAlone = true;
-        }
-        fPrefix = 0;
-        fLocalName = fName;
-    }
-    else
-    {
-        fPrefix = ownerDoc->getPooledNString(fName, index);
-        fLocalName = ownerDoc->getPooledString(fName+index+1);
-
-        // Before we carry on, we should check if the prefix or localName are valid XMLName
-        if (!ownerDoc->isXMLName(fPrefix) || !ownerDoc->isXMLName(fLocalName))
-            throw DOMException(DOMException::NAMESPACE_ERR, 0, GetDOMNodeMemoryManager);
-    }
-
-    // DOM Level 3: namespace URI is never empty string.
-    const XMLCh * URI = xmlnsAlone ? xmlnsURI
-        : DOMNodeImpl::mapPrefix
-          (
-              fPrefix,
-              (!namespaceURI || !*namespaceURI) ? 0 : namespaceURI,
-              DOMNode::ATTRIBUTE_NODE
-          );
-    this -> fNamespaceURI = (URI == 0) ? 0 : ownerDoc->getPooledString(URI);
+    fName = name;
+    fPrefix = prefix;
+    fLocalName = localName;
+    fNamespaceURI = URI;
 }
 
 }
